@@ -386,7 +386,7 @@ def r5_decorators(a, tier):
             for n in walk_no_defs(post.node):
                 if isinstance(n, ast.Assign) and norm(n.targets[0]) == f'self.{field_of[d]}' and any(
                         isinstance(c, ast.Compare) and isinstance(c.left, ast.Constant) and c.left.value == d
-                        and isinstance(c.ops[0], ast.In) and norm(c.comparators[0]) == 'self.decorators' for c in ast.walk(n.value)):
+                        and isinstance(c.ops[0], ast.In) and norm(through_locals(post, c.comparators[0])) in ('self.decorators', 'self.decorators or []') for c in ast.walk(n.value)):
                     consumed_into = f'Rule.{field_of[d]}'
         else:
             if any(isinstance(c, ast.Constant) and c.value == d for c in ast.walk(sem_rule.node)):
